@@ -11,7 +11,7 @@ re-filing loop (`Img.refile`) behind the generated gate `<= (1, 1)`; `Mf.Rpms.ad
 `Model/RpmsLegacy.lean`) behind the generated gate `<= (0, 3)`.
 
 `Spec.BinaryArch a` : `a ∈ Gen.RPM_ARCHES ∧ a ≠ "src" ∧ a ≠ "nosrc"` (`Spec/Arches.lean`).
-`Img.archKeys` / `Mf.archKeys` list EVERY key on the arch level of the manifest, also keys of empty tables.
+`Img.C10.archKeys` / `Mf.C10.archKeys` list EVERY key on the arch level of the manifest, also keys of empty tables.
 -/
 set_option Elab.async false
 namespace PM
@@ -30,15 +30,15 @@ theorem C10_refusal_lists :
 /-- statement order of `Images.add` as it is in the source now: the insertion comes after both arch checks, both
 checks stand at the head of the body, nothing that can raise follows the insertion -/
 theorem C10_images_script :
-    Img.archGuard Gen.images_add_script false false = true ∧ Img.headChecks Gen.images_add_script = (true, true)
+    Img.C10.archGuard Gen.images_add_script false false = true ∧ Img.C10.headChecks Gen.images_add_script = (true, true)
     ∧ Img.safeOrder Gen.images_add_script = true := by decide
 
 /-- the explicit refusal is necessary: with the table check alone an `add` under `src` files the image there -/
 theorem C10_refusal_necessary :
-    Img.archKeys (Img.runSteps (L "Server") (L "src") 0 {} [.archTable, .insert] {}).1.cells = [L "src"]
-    ∧ Img.archKeys (Img.runSteps (L "Server") (L "nosrc") 0 {} [.archTable, .insert] {}).1.cells = [L "nosrc"] := by decide
+    Img.C10.archKeys (Img.runSteps (L "Server") (L "src") 0 {} [.archTable, .insert] {}).1.cells = [L "src"]
+    ∧ Img.C10.archKeys (Img.runSteps (L "Server") (L "nosrc") 0 {} [.archTable, .insert] {}).1.cells = [L "nosrc"] := by decide
 
-theorem images_admissible_binary {a : Str} (h : Img.Admissible a) : BinaryArch a := by
+theorem c10_images_admissible_binary {a : Str} (h : Img.C10.Admissible a) : BinaryArch a := by
   obtain ⟨h1, h2⟩ := h
   have h2' : a ∉ Gen.images_add_refused := by
     intro hm
@@ -48,70 +48,70 @@ theorem images_admissible_binary {a : Str} (h : Img.Admissible a) : BinaryArch a
   · rintro rfl; exact h2' C10_refusal_lists.1.1
   · rintro rfl; exact h2' C10_refusal_lists.1.2
 
-theorem rpms_admissible_binary {a : Str} (h : Mf.Admissible a) : BinaryArch a := by
+theorem c10_rpms_admissible_binary {a : Str} (h : Mf.C10.Admissible a) : BinaryArch a := by
   obtain ⟨h1, h2⟩ := h
   refine ⟨h1, ?_, ?_⟩
   · rintro rfl; exact h2 C10_refusal_lists.2.1
   · rintro rfl; exact h2 C10_refusal_lists.2.2
 
-theorem images_not_binary {a : Str} (h : ¬ BinaryArch a) :
+theorem c10_images_not_binary {a : Str} (h : ¬ BinaryArch a) :
     Gen.RPM_ARCHES.contains a = false ∨ Img.refusedArches.contains a = true := by
   by_cases h1 : Gen.RPM_ARCHES.contains a = true
   · right
     by_cases h2 : Img.refusedArches.contains a = true
     · exact h2
-    · exact absurd (images_admissible_binary ⟨h1, by simpa using h2⟩) h
+    · exact absurd (c10_images_admissible_binary ⟨h1, by simpa using h2⟩) h
   · left; simpa using h1
 
 /-! ## Images.add -/
 
 /-- **step**: whatever the call (accepted or refused, any arch string), the arch keys stay binary -/
-theorem C10_images_step (s : Img.ImgState) (v a : Str) (id : Nat) (img : Img.Image) (hk : Img.KeysOK s.cells) :
-    Img.KeysOK (Img.add s v a id img).1.cells :=
-  Img.keys_of_archGuard v a id img Img.addScript s false false C10_images_script.1 (fun h => by cases h) (fun h => by cases h) hk
+theorem C10_images_step (s : Img.ImgState) (v a : Str) (id : Nat) (img : Img.Image) (hk : Img.C10.KeysOK s.cells) :
+    Img.C10.KeysOK (Img.add s v a id img).1.cells :=
+  Img.C10.keys_of_archGuard v a id img Img.addScript s false false C10_images_script.1 (fun h => by cases h) (fun h => by cases h) hk
 
 /-- **refusal**: adding under `src`, `nosrc` or a name outside the table raises ValueError and the manifest is
 IDENTICAL to what it was — no variant key, no empty arch table is left behind (any state, any header version) -/
 theorem C10_images_refused (s : Img.ImgState) (v a : Str) (id : Nat) (img : Img.Image) (h : ¬ BinaryArch a) :
     Img.add s v a id img = (s, .error .valueError) := by
-  apply Img.refused_of_headChecks
-  have e : Img.headChecks Img.addScript = (true, true) := C10_images_script.2.1
+  apply Img.C10.refused_of_headChecks
+  have e : Img.C10.headChecks Img.addScript = (true, true) := C10_images_script.2.1
   rw [e]
-  rcases images_not_binary h with h | h
+  rcases c10_images_not_binary h with h | h
   · exact Or.inl ⟨h, rfl⟩
   · exact Or.inr ⟨h, rfl⟩
 
 /-- **histories**: every state reachable from the empty manifest by any list of `add` calls (refused ones
 included, any arch strings, any header version set by the caller) has only binary arch keys -/
 theorem C10_keys_images_add (ver : Str) (ops : List Img.AddOp) :
-    ∀ a ∈ Img.archKeys (ops.foldl Img.step (Img.empty ver)).cells, BinaryArch a := by
-  suffices h : ∀ (s : Img.ImgState), Img.KeysOK s.cells → Img.KeysOK (ops.foldl Img.step s).cells by
+    ∀ a ∈ Img.C10.archKeys (ops.foldl Img.step (Img.empty ver)).cells, BinaryArch a := by
+  suffices h : ∀ (s : Img.ImgState), Img.C10.KeysOK s.cells → Img.C10.KeysOK (ops.foldl Img.step s).cells by
     intro a ha
-    exact images_admissible_binary (h (Img.empty ver) (by intro x hx; simp [Img.empty, Img.archKeys] at hx) a ha)
+    exact c10_images_admissible_binary (h (Img.empty ver) (by intro x hx; simp [Img.empty, Img.C10.archKeys] at hx) a ha)
   induction ops with
   | nil => intro s hs; exact hs
   | cons op rest ih =>
     intro s hs
     simp only [List.foldl_cons]
-    exact ih _ (Img.keys_of_archGuard op.variant op.arch op.id op.img Img.addScript s false false C10_images_script.1
+    exact ih _ (Img.C10.keys_of_archGuard op.variant op.arch op.id op.img Img.addScript s false false C10_images_script.1
       (fun h => by cases h) (fun h => by cases h) hs)
 
 /-- **loading**: every manifest obtained from ANY images document (any header version: 1.0 / 1.1 with `src`
 re-filing, 1.2 …; any shape of the image table) has only binary arch keys -/
 theorem C10_keys_images_load (doc : PyVal) (s : Img.ImgState) (h : Img.deserialize doc = .ok s) :
-    ∀ a ∈ Img.archKeys s.cells, BinaryArch a := by
-  have hk : Img.KeysOK s.cells := by
-    refine Img.deserialize_inv doc s (fun s => Img.KeysOK s.cells) (fun _ _ e h => e ▸ h) ?_ ?_ h
+    ∀ a ∈ Img.C10.archKeys s.cells, BinaryArch a := by
+  have hk : Img.C10.KeysOK s.cells := by
+    refine Img.deserialize_inv doc s (fun s => Img.C10.KeysOK s.cells) (fun _ _ e h => e ▸ h) ?_ ?_ h
     · intro ver _
       refine ⟨fun s v a id img s' _ hk hadd => ?_⟩
-      have := Img.keys_of_archGuard v a id img Img.addScript s false false C10_images_script.1
+      have := Img.C10.keys_of_archGuard v a id img Img.addScript s false false C10_images_script.1
         (fun h => by cases h) (fun h => by cases h) hk
       have e : Img.runSteps v a id img Img.addScript s = Img.add s v a id img := rfl
       rw [e, hadd] at this
       exact this
-    · intro x hx; simp [Img.archKeys] at hx
+    · intro x hx; simp [Img.C10.archKeys] at hx
   intro a ha
-  exact images_admissible_binary (hk a ha)
+  exact c10_images_admissible_binary (hk a ha)
 
 /-! ## Rpms.add and the 0.3 reader -/
 
@@ -124,25 +124,25 @@ theorem C10_rpms_refused (s : PyVal) (a : Mf.RpmsArgs) (h : ¬ BinaryArch a.arch
   · right; left
     by_cases h2 : a.arch ∈ Mf.srcArches
     · exact h2
-    · exact absurd (rpms_admissible_binary ⟨h1, h2⟩) h
+    · exact absurd (c10_rpms_admissible_binary ⟨h1, h2⟩) h
   · left; exact h1
 
 /-- **histories**: every mapping reachable from the empty one by any list of `Rpms.add` calls (refused ones
 included) has only binary arch keys -/
-theorem C10_keys_rpms_add (h : List Mf.RpmsArgs) : ∀ a ∈ Mf.archKeys (Mf.runRpms Mf.empty h), BinaryArch a :=
-  fun a ha => rpms_admissible_binary (Mf.keysOK_run h Mf.empty Mf.keysOK_empty a ha)
+theorem C10_keys_rpms_add (h : List Mf.RpmsArgs) : ∀ a ∈ Mf.C10.archKeys (Mf.runRpms Mf.empty h), BinaryArch a :=
+  fun a ha => c10_rpms_admissible_binary (Mf.C10.keysOK_run h Mf.empty Mf.C10.keysOK_empty a ha)
 
 /-- **0.3 conversion**: the mapping `deserialize_0_3` builds from ANY `payload` has only binary arch keys -/
-theorem C10_keys_rpms_manifest03 (pl s : PyVal) (h : Mf.manifest03 pl = .ok s) : ∀ a ∈ Mf.archKeys s, BinaryArch a :=
-  fun a ha => rpms_admissible_binary
-    (Mf.manifest03_inv Mf.KeysOK (fun s a hs => Mf.keysOK_add s a hs) h Mf.keysOK_empty a ha)
+theorem C10_keys_rpms_manifest03 (pl s : PyVal) (h : Mf.manifest03 pl = .ok s) : ∀ a ∈ Mf.C10.archKeys s, BinaryArch a :=
+  fun a ha => c10_rpms_admissible_binary
+    (Mf.C10.manifest03_inv Mf.C10.KeysOK (fun s a hs => Mf.C10.keysOK_add s a hs) h Mf.C10.keysOK_empty a ha)
 
 /-- … in particular the mapping of a manifest loaded from a document whose header version passes the generated gate
 `<= (0, 3)` -/
 theorem C10_keys_rpms_load03 (doc : PyVal) (m : Mf.Manifest) (h : Mf.deserializeL .rpms doc = .ok m)
     (ver : PyVal) (l : Nat × Nat) (hh : Mf.headerDeserialize .rpms doc = .ok (ver, .nums l))
-    (hg : Mf.gateHolds Gen.gate_rpms_Rpms_deserialize_0 l = true) : ∀ a ∈ Mf.archKeys m.payload, BinaryArch a := by
-  obtain ⟨pl, _, hm⟩ := Mf.deserializeL_legacy doc m h ver l hh hg
+    (hg : Mf.gateHolds Gen.gate_rpms_Rpms_deserialize_0 l = true) : ∀ a ∈ Mf.C10.archKeys m.payload, BinaryArch a := by
+  obtain ⟨pl, _, hm⟩ := Mf.C10.deserializeL_legacy doc m h ver l hh hg
   exact C10_keys_rpms_manifest03 pl m.payload hm
 
 /-- the gate in front of the 0.3 reader is `<= (0, 3)`, the gate in front of `_add_1_1` is `<= (1, 1)` -/
@@ -153,12 +153,12 @@ theorem C10_gates : Gen.gate_rpms_Rpms_deserialize_0 = { op := .le, bound := (0,
 arch strings), and for every state obtained by loading any images document (any version) or an rpms document of
 format ≤ 0.3, every arch key is in `Gen.RPM_ARCHES` minus {`src`, `nosrc`} -/
 theorem C10_keys :
-    (∀ (ver : Str) (ops : List Img.AddOp), ∀ a ∈ Img.archKeys (ops.foldl Img.step (Img.empty ver)).cells, BinaryArch a)
-    ∧ (∀ (h : List Mf.RpmsArgs), ∀ a ∈ Mf.archKeys (Mf.runRpms Mf.empty h), BinaryArch a)
-    ∧ (∀ (doc : PyVal) (s : Img.ImgState), Img.loads doc = .ok s → ∀ a ∈ Img.archKeys s.cells, BinaryArch a)
+    (∀ (ver : Str) (ops : List Img.AddOp), ∀ a ∈ Img.C10.archKeys (ops.foldl Img.step (Img.empty ver)).cells, BinaryArch a)
+    ∧ (∀ (h : List Mf.RpmsArgs), ∀ a ∈ Mf.C10.archKeys (Mf.runRpms Mf.empty h), BinaryArch a)
+    ∧ (∀ (doc : PyVal) (s : Img.ImgState), Img.loads doc = .ok s → ∀ a ∈ Img.C10.archKeys s.cells, BinaryArch a)
     ∧ (∀ (doc : PyVal) (m : Mf.Manifest) (ver : PyVal) (l : Nat × Nat), Mf.deserializeL .rpms doc = .ok m →
          Mf.headerDeserialize .rpms doc = .ok (ver, .nums l) → Mf.gateHolds Gen.gate_rpms_Rpms_deserialize_0 l = true →
-         ∀ a ∈ Mf.archKeys m.payload, BinaryArch a) := by
+         ∀ a ∈ Mf.C10.archKeys m.payload, BinaryArch a) := by
   refine ⟨C10_keys_images_add, C10_keys_rpms_add, ?_, fun doc m ver l h hh hg => C10_keys_rpms_load03 doc m h ver l hh hg⟩
   intro doc s h
   unfold Img.loads at h
@@ -170,22 +170,22 @@ theorem C10_keys :
 
 /-! ## what is written back -/
 
-theorem archKeys_toPy (o : Img.OutCells) : Mf.archKeys o.toPy = Img.outArchKeys o := by
-  simp only [Img.OutCells.toPy, Mf.archKeys, Img.outArchKeys, List.flatMap_map]
+theorem c10_archKeys_toPy (o : Img.OutCells) : Mf.C10.archKeys o.toPy = Img.C10.outArchKeys o := by
+  simp only [Img.OutCells.toPy, Mf.C10.archKeys, Img.C10.outArchKeys, List.flatMap_map]
   congr 1
   funext va
-  simp [Mf.dictKeys, List.map_map, Function.comp_def]
+  simp [Mf.C10.dictKeys, List.map_map, Function.comp_def]
 
 /-- **images, written back**: the document `serialize` builds from a loaded manifest has only binary arch keys in
-its image table (`Mf.archKeys` = every key on the second level of the table) -/
+its image table (`Mf.C10.archKeys` = every key on the second level of the table) -/
 theorem C10_images_written (doc : PyVal) (s : Img.ImgState) (h : Img.deserialize doc = .ok s) (out : PyVal)
     (hs : (Img.serialize s).2 = .ok out) :
     ∃ payload tbl, PyOps.item out (L "payload") = .ok payload ∧ PyOps.item payload (L "images") = .ok tbl
-      ∧ ∀ a ∈ Mf.archKeys tbl, BinaryArch a := by
-  obtain ⟨hdr, comp, o, rfl, hk⟩ := Img.serialize_keys s out hs
+      ∧ ∀ a ∈ Mf.C10.archKeys tbl, BinaryArch a := by
+  obtain ⟨hdr, comp, o, rfl, hk⟩ := Img.C10.serialize_keys s out hs
   refine ⟨_, o.toPy, rfl, rfl, ?_⟩
   intro a ha
-  rw [archKeys_toPy] at ha
+  rw [c10_archKeys_toPy] at ha
   exact C10_keys_images_load doc s h a (hk a ha)
 
 /-- **rpms, written back**: the document written from a manifest converted from format ≤ 0.3 carries the converted
@@ -194,14 +194,14 @@ theorem C10_rpms_written (doc : PyVal) (m : Mf.Manifest) (h : Mf.deserializeL .r
     (ver : PyVal) (l : Nat × Nat) (hh : Mf.headerDeserialize .rpms doc = .ok (ver, .nums l))
     (hg : Mf.gateHolds Gen.gate_rpms_Rpms_deserialize_0 l = true) (out : PyVal) (hs : (Mf.serialize .rpms m).2 = .ok out) :
     ∃ payload tbl, Mf.getItem out (Mf.lit "payload") = .ok payload ∧ Mf.getItem payload (Mf.lit "rpms") = .ok tbl
-      ∧ (∀ a ∈ Mf.archKeys tbl, BinaryArch a) ∧ L "src" ∉ Mf.archKeys tbl := by
-  obtain ⟨pl, h1, h2⟩ := Mf.serialize_rpms_payload m out hs
+      ∧ (∀ a ∈ Mf.C10.archKeys tbl, BinaryArch a) ∧ L "src" ∉ Mf.C10.archKeys tbl := by
+  obtain ⟨pl, h1, h2⟩ := Mf.C10.serialize_rpms_payload m out hs
   have hk := C10_keys_rpms_load03 doc m h ver l hh hg
   exact ⟨pl, m.payload, h1, h2, hk, fun hm => (hk _ hm).2.1 rfl⟩
 
 /-! ## C10_images_refile -/
 
-open PM.Img in
+open PM.Img PM.Img.C10 in
 /-- **exact filing of a document of format ≤ 1.1** (generated gate) whose image table is `O` — any parsed JSON object
 variant ↦ arch ↦ list, i.e. unique keys on both levels.  The k-th image dictionary of the table (iteration order) is
 read as ONE object with identity k, and the filings `(variant, arch, object, attributes)` of the loaded manifest are
@@ -234,7 +234,7 @@ theorem C10_images_refile (doc : PyVal) (s : ImgState) (h : Img.deserialize doc 
   rw [hcells]
   exact load_old_files ver vt hvt hold O hO _ rfl (s1, n) hl
 
-theorem mem_unique {β : Type} {l : List (Str × β)} (hn : (l.map (·.1)).Nodup) {k : Str} {x y : β} (hx : (k, x) ∈ l) (hy : (k, y) ∈ l) :
+theorem c10_mem_unique {β : Type} {l : List (Str × β)} (hn : (l.map (·.1)).Nodup) {k : Str} {x y : β} (hx : (k, x) ∈ l) (hy : (k, y) ∈ l) :
     x = y := by
   have h1 := Img.find_key (fun b : β => b) l k x hn hx
   have h2 := Img.find_key (fun b : β => b) l k y hn hy
@@ -242,7 +242,7 @@ theorem mem_unique {β : Type} {l : List (Str × β)} (hn : (l.map (·.1)).Nodup
   injection h2 with h2
   injection h2
 
-open PM.Img in
+open PM.Img PM.Img.C10 in
 /-- **the property's words**: for a ≤ 1.1 document and a variant `v` with arch keys `as`, the image read from the
 k-th dictionary, standing under `(v, src)`, is filed under `(v, b)` for EVERY arch key `b ≠ src` of `v` — the same
 object in each — and nowhere else: not under another variant, not under `src` -/
@@ -264,7 +264,7 @@ theorem C10_images_refile_src (doc : PyVal) (s : ImgState) (h : Img.deserialize 
     injection hk' with e2 e3
     subst e1 e2 e3
     rw [hd] at hd'; injection hd' with hd'
-    have := mem_unique hO.1 hv hv'
+    have := c10_mem_unique hO.1 hv hv'
     subst this
     simp only [targets, ↓reduceIte, List.mem_filter, decide_eq_true_eq] at hb
     exact ⟨rfl, hd'.symm, hb.1, hb.2⟩
@@ -273,7 +273,7 @@ theorem C10_images_refile_src (doc : PyVal) (s : ImgState) (h : Img.deserialize 
     simp only [targets, ↓reduceIte, List.mem_filter, decide_eq_true_eq]
     exact ⟨hb1, hb2⟩
 
-open PM.Img in
+open PM.Img PM.Img.C10 in
 /-- … and an image that did not stand under `src` is filed in its own cell and nowhere else -/
 theorem C10_images_refile_other (doc : PyVal) (s : ImgState) (h : Img.deserialize doc = .ok s)
     (ver : PyVal) (hver : Img.headerDeserialize doc = .ok ver) (vt : VerT) (hvt : Img.versionTuple ver = .ok vt)
@@ -300,7 +300,7 @@ theorem C10_images_refile_other (doc : PyVal) (s : ImgState) (h : Img.deserializ
     refine ⟨b, d, as, hk, hd, hmem, ?_⟩
     simp [targets, ha]
 
-open PM.Img in
+open PM.Img PM.Img.C10 in
 /-- **a ≤ 1.1 document that loads needs only binary arches**: if the document loads, every arch key under which one of
 its image dictionaries has to be filed — its own key, or for a `src` image EVERY other arch key of the variant, also
 one whose own list is empty — is binary.  (Contrapositive: a document with images under `nosrc` / an unknown name,
@@ -341,31 +341,31 @@ theorem C10_images_old_doc_arches (doc : PyVal) (s : ImgState) (h : Img.deserial
 
 /-! ### a concrete 1.1 document: hypotheses are satisfiable, the statement is not vacuous -/
 
-def exImage (path arch : String) (n : Int) : PyVal :=
+def c10_exImage (path arch : String) (n : Int) : PyVal :=
   .dict [(L "path", .str (L path)), (L "mtime", .int 1), (L "size", .int 2), (L "volume_id", .none), (L "type", .str (L "dvd")),
          (L "format", .str (L "iso")), (L "arch", .str (L arch)), (L "disc_number", .int n), (L "disc_count", .int 1),
          (L "checksums", .dict [(L "md5", .str (L "0"))]), (L "implant_md5", .none), (L "bootable", .bool false),
          (L "subvariant", .str (L "S"))]
 
-def exTable : Img.OutCells :=
-  [(L "Server", [(L "src", [exImage "Server/source/a.iso" "src" 1]), (L "x86_64", [exImage "Server/x86_64/b.iso" "x86_64" 2]), (L "s390x", [])]),
-   (L "Client", [(L "i386", [exImage "Client/i386/c.iso" "i386" 3])])]
+def c10_exTable : Img.OutCells :=
+  [(L "Server", [(L "src", [c10_exImage "Server/source/a.iso" "src" 1]), (L "x86_64", [c10_exImage "Server/x86_64/b.iso" "x86_64" 2]), (L "s390x", [])]),
+   (L "Client", [(L "i386", [c10_exImage "Client/i386/c.iso" "i386" 3])])]
 
-def exImagesDoc : PyVal :=
+def c10_exImagesDoc : PyVal :=
   .dict [(L "header", .dict [(L "version", .str (L "1.1")), (L "type", .str (L "productmd.images"))]),
          (L "payload", .dict [
            (L "compose", .dict [(L "id", .str (L "F-22-20150522.0")), (L "type", .str (L "production")),
                                 (L "date", .str (L "20150522")), (L "respin", .int 0)]),
-           (L "images", exTable.toPy)])]
+           (L "images", c10_exTable.toPy)])]
 
 /-- the Server source image (object 0) ends up under Server/x86_64 and Server/s390x (an arch key with no image of its
 own), not under Client/i386; no `src` key -/
-example : ((Img.deserialize exImagesDoc).toOption.map fun s => ((entries s.cells).map fun e => (e.1, e.2.1, e.2.2.1), Img.archKeys s.cells))
+example : ((Img.deserialize c10_exImagesDoc).toOption.map fun s => ((entries s.cells).map fun e => (e.1, e.2.1, e.2.2.1), Img.C10.archKeys s.cells))
     = some ([(L "Server", L "x86_64", 0), (L "Server", L "x86_64", 1), (L "Server", L "s390x", 0), (L "Client", L "i386", 2)],
             [L "x86_64", L "s390x", L "i386"]) := by
   decide +kernel
 
-example : Img.OutNodup exTable ∧ (Img.outTriples exTable)[0]? = some (L "Server", L "src", exImage "Server/source/a.iso" "src" 1)
+example : Img.OutNodup c10_exTable ∧ (Img.outTriples c10_exTable)[0]? = some (L "Server", L "src", c10_exImage "Server/source/a.iso" "src" 1)
     ∧ ((Img.versionTuple (.str (L "1.1"))).bind (Img.gateEval Gen.gate_images_Images_deserialize_0)) = .ok true := by
   refine ⟨⟨by decide, by decide⟩, rfl, by decide +kernel⟩
 
@@ -392,11 +392,11 @@ theorem C10_rpms_refile_general_partial (doc : PyVal) (m : Mf.Manifest) (h : Mf.
     ∃ (p : Str) (sk : Option Str), PyOps.item sd (L "path") = .ok (.str p) ∧ PyOps.item sd (L "sigkey") = .ok (Mf.optStr sk) ∧
       Mf.getPath m.payload [v, a, canonNvra dk, canonNvra dk]
         = some (Mf.rpmRecord (sk.map Str.lowerAscii) p (L "source")) := by
-  obtain ⟨pl', hpl', hm⟩ := Mf.deserializeL_legacy doc m h ver l hh hg
+  obtain ⟨pl', hpl', hm⟩ := Mf.C10.deserializeL_legacy doc m h ver l hh hg
   rw [hpl] at hpl'; injection hpl' with hpl'; subst hpl'
-  exact Mf.manifest03_refile pl m.payload hm vs hman hvs v as hv has a ha cell hcell hcn st hsrc k sd hst hsd dk hparse rl hrl hk hdist
+  exact Mf.C10.manifest03_refile pl m.payload hm vs hman hvs v as hv has a ha cell hcell hcn st hsrc k sd hst hsd dk hparse rl hrl hk hdist
 
-theorem canonNvra_ne_nil (d : Nvra) : canonNvra d ≠ [] := by
+theorem c10_canonNvra_ne_nil (d : Nvra) : canonNvra d ≠ [] := by
   unfold canonNvra
   intro e
   have := congrArg List.length e
@@ -423,7 +423,7 @@ theorem C10_rpms_refile (doc : PyVal) (m : Mf.Manifest) (h : Mf.deserializeL .rp
     dk hparse rl hrl hk (by
       intro it hit hne
       obtain ⟨d, hp, hc⟩ := hcanon it hit
-      refine ⟨fun e => canonNvra_ne_nil d (hc.trans e), fun d' hp' => ?_⟩
+      refine ⟨fun e => c10_canonNvra_ne_nil d (hc.trans e), fun d' hp' => ?_⟩
       rw [hp] at hp'; injection hp' with hp'; subst hp'
       rw [hc, hcan]; exact hne)
   rw [hcan] at this
@@ -431,22 +431,22 @@ theorem C10_rpms_refile (doc : PyVal) (m : Mf.Manifest) (h : Mf.deserializeL .rp
 
 /-! ### concrete 0.3 manifests -/
 
-def exRpm (type path : String) (sigkey : PyVal) : PyVal :=
+def c10_exRpm (type path : String) (sigkey : PyVal) : PyVal :=
   .dict [(L "type", .str (L type)), (L "path", .str (L path)), (L "sigkey", sigkey)]
 
 /-- an unsigned SRPM next to signed binaries, listed under two binary arches; a second variant without `src` -/
-def exManifest03 : PyVal :=
+def c10_exManifest03 : PyVal :=
   .dict [(L "manifest", .dict [
     (L "Server", .dict [
       (L "src", .dict [(L "bash-0:4.2-5.src", .dict [(L "path", .str (L "Server/source/bash.src.rpm")), (L "sigkey", .none)])]),
-      (L "x86_64", .dict [(L "bash-0:4.2-5.src", .dict [(L "bash-0:4.2-5.x86_64", exRpm "package" "Server/x86_64/bash.rpm" (.str (L "FD431D51")))])]),
-      (L "s390x", .dict [(L "bash-0:4.2-5.src", .dict [(L "bash-doc-0:4.2-5.noarch", exRpm "package" "Server/s390x/bash-doc.rpm" (.str (L "FD431D51")))])])]),
+      (L "x86_64", .dict [(L "bash-0:4.2-5.src", .dict [(L "bash-0:4.2-5.x86_64", c10_exRpm "package" "Server/x86_64/bash.rpm" (.str (L "FD431D51")))])]),
+      (L "s390x", .dict [(L "bash-0:4.2-5.src", .dict [(L "bash-doc-0:4.2-5.noarch", c10_exRpm "package" "Server/s390x/bash-doc.rpm" (.str (L "FD431D51")))])])]),
     (L "Client", .dict [
-      (L "i386", .dict [(L "bash-0:4.2-5.src", .dict [(L "bash-0:4.2-5.i686", exRpm "package" "Client/i386/bash.rpm" (.none))])])])])]
+      (L "i386", .dict [(L "bash-0:4.2-5.src", .dict [(L "bash-0:4.2-5.i686", c10_exRpm "package" "Client/i386/bash.rpm" (.none))])])])])]
 
 example :
-    (Mf.manifest03 exManifest03).toOption.map (fun s =>
-      (Mf.archKeys s,
+    (Mf.manifest03 c10_exManifest03).toOption.map (fun s =>
+      (Mf.C10.archKeys s,
        Mf.getPath s [L "Server", L "x86_64", L "bash-0:4.2-5.src", L "bash-0:4.2-5.src"] == some (Mf.rpmRecord none (L "Server/source/bash.src.rpm") (L "source")),
        Mf.getPath s [L "Server", L "s390x", L "bash-0:4.2-5.src", L "bash-0:4.2-5.src"] == some (Mf.rpmRecord none (L "Server/source/bash.src.rpm") (L "source")),
        (Mf.getPath s [L "Client", L "i386", L "bash-0:4.2-5.src", L "bash-0:4.2-5.src"]).isNone))
@@ -458,17 +458,17 @@ example : ∃ d, parseNvra (L "bash-0:4.2-5.src") = .ok d ∧ canonNvra d = L "b
 
 /-- the region excluded by `hdist`: two texts of ONE source package in one table (`…src` and `…src.rpm`), each with its
 own `src` entry — both write `[v][a][K][K]`, the later one stays -/
-def exCollision03 : PyVal :=
+def c10_exCollision03 : PyVal :=
   .dict [(L "manifest", .dict [
     (L "Server", .dict [
       (L "src", .dict [(L "bash-0:4.2-5.src", .dict [(L "path", .str (L "first.src.rpm")), (L "sigkey", .none)]),
                        (L "bash-0:4.2-5.src.rpm", .dict [(L "path", .str (L "second.src.rpm")), (L "sigkey", .none)])]),
       (L "x86_64", .dict [
-        (L "bash-0:4.2-5.src", .dict [(L "bash-0:4.2-5.x86_64", exRpm "package" "a.rpm" .none)]),
-        (L "bash-0:4.2-5.src.rpm", .dict [(L "bash-doc-0:4.2-5.noarch", exRpm "package" "b.rpm" .none)])])])])]
+        (L "bash-0:4.2-5.src", .dict [(L "bash-0:4.2-5.x86_64", c10_exRpm "package" "a.rpm" .none)]),
+        (L "bash-0:4.2-5.src.rpm", .dict [(L "bash-doc-0:4.2-5.noarch", c10_exRpm "package" "b.rpm" .none)])])])])]
 
 theorem C10_rpms_refile_collision_witness :
-    (Mf.manifest03 exCollision03).toOption.map (fun s =>
+    (Mf.manifest03 c10_exCollision03).toOption.map (fun s =>
       Mf.getPath s [L "Server", L "x86_64", L "bash-0:4.2-5.src", L "bash-0:4.2-5.src"] == some (Mf.rpmRecord none (L "second.src.rpm") (L "source")))
     = some true := by
   decide +kernel
